@@ -5,8 +5,17 @@
 import AferoVerif.Proofs.MemFsInv3
 import AferoVerif.Proofs.MemFsInv4
 import AferoVerif.Proofs.MemFsInv5
+import AferoVerif.Proofs.MemFsInv6
 namespace AferoVerif
 namespace MemFs
+
+/-- Rename of a directory with everything below it: the source exists and is not the root, the target name
+    is free ("directories onto otherwise unused names") and does not lie inside the source, and the
+    target's parent directory exists -/
+def RenameSubtree (m : MemFs) (old new : Key) : Prop :=
+  ∃ f, m.lookup old = some f ∧ old.segs ≠ [] ∧ new.segs ≠ [] ∧
+    m.lookup new = none ∧ isUnder old new = false ∧
+    (∃ p' pd', m.lookup (parentKey new) = some p' ∧ (m.obj p').memDir = some pd')
 
 def Leaf (m : MemFs) (f : Nat) : Prop := (m.obj f).memDir = none ∨ (m.obj f).memDir = some []
 
@@ -15,12 +24,14 @@ def Leaf (m : MemFs) (f : Nat) : Prop := (m.obj f).memDir = none ∨ (m.obj f).m
     RemoveAll does not name the root itself. Mkdir, MkdirAll and the creating opens need nothing:
     whatever is missing above the name is created (`Proofs/MemFsInv5.lean`). Rename moves a file or an
     empty directory to a free name or over another file or empty directory whose parent directory exists
-    (`RenameLeaf`, `Proofs/MemFsInv4.lean`), or names a missing source, or renames a name onto itself. -/
+    (`RenameLeaf`, `Proofs/MemFsInv4.lean`), or a directory with its whole subtree to a free name
+    (`RenameSubtree`, `Proofs/MemFsInv6.lean`), or names a missing source, or renames a name onto itself. -/
 def WFop (m : MemFs) : Op → Prop
   | .create p => ∀ f, m.lookup (keyOfStr p) = some f → (m.obj f).dir = false
   | .remove p => m.lookup (keyOfStr p) = none ∨ (keyOfStr p ≠ rootKey ∧ ∃ f, m.lookup (keyOfStr p) = some f ∧ Leaf m f)
   | .removeAll p => (keyOfStr p).segs ≠ []
-  | .rename a b => m.lookup (keyOfStr a) = none ∨ keyOfStr a = keyOfStr b ∨ RenameLeaf m (keyOfStr a) (keyOfStr b)
+  | .rename a b => m.lookup (keyOfStr a) = none ∨ keyOfStr a = keyOfStr b ∨ RenameLeaf m (keyOfStr a) (keyOfStr b) ∨
+      RenameSubtree m (keyOfStr a) (keyOfStr b)
   | _ => True
 
 /-- a normalised key without elements is the root -/
@@ -107,7 +118,8 @@ theorem consistent_remove (m : MemFs) (hc : Consistent m) (k : Key)
 /-- **the index invariant is preserved by every operation of the fragment**: Create, Mkdir,
     MkdirAll and creating OpenFile below an existing directory, Remove of a file or an empty
     directory, every metadata call, every open, every method of every handle. -/
-theorem consistent_step_wf (m : MemFs) (op : Op) (hc : Consistent m) (hw : WFop m op) : Consistent (m.step op).1 := by
+theorem consistent_step_wf (m : MemFs) (op : Op) (hc : Consistent m) (hk : KeysNodup m) (hw : WFop m op) :
+    Consistent (m.step op).1 := by
   cases op with
   | create p =>
     simp only [step]
@@ -133,12 +145,14 @@ theorem consistent_step_wf (m : MemFs) (op : Op) (hc : Consistent m) (hw : WFop 
   | removeAll p => exact consistent_removeAll m hc _ hw (normKey_keyOfStr p)
   | rename a b =>
     simp only [step]
-    rcases hw with h | h | h
+    rcases hw with h | h | h | h
     · unfold rename; simp only [h]; exact hc
     · unfold rename; split
       · exact hc
       · simp only [h, if_true]; exact hc
     · exact consistent_rename_of_renameLeaf m hc _ _ h
+    · obtain ⟨f, h1, h2, h3, h4, h5, h6⟩ := h
+      exact consistent_rename_dir m hc _ _ f h1 (normKey_keyOfStr a) (normKey_keyOfStr b) h2 h3 h4 h5 h6 hk
   | stat p => exact hc
   | chmod p mode =>
     simp only [step]
@@ -205,11 +219,13 @@ def WFrun (m : MemFs) : List Op → Prop
 
 /-- **the tree is self-consistent after every well-formed program of the fragment**: every existing
     path is listed by its parent, every listed entry exists, every existing path has an existing
-    parent directory, names lead to allocated objects carrying their own name -/
-theorem consistent_run_wf (ops : List Op) : ∀ m, Consistent m → WFrun m ops → Consistent (run m ops) := by
+    parent directory, names lead to allocated objects carrying their own name (and the path map has one
+    entry per name) -/
+theorem consistent_run_wf (ops : List Op) : ∀ m, Consistent m → KeysNodup m → WFrun m ops →
+    Consistent (run m ops) ∧ KeysNodup (run m ops) := by
   induction ops with
-  | nil => intro m h _; exact h
-  | cons op ops ih => intro m h hw; exact ih _ (consistent_step_wf m op h hw.1) hw.2
+  | nil => intro m h hk _; exact ⟨h, hk⟩
+  | cons op ops ih => intro m h hk hw; exact ih _ (consistent_step_wf m op h hk hw.1) (keysNodup_step m op hk) hw.2
 
 end MemFs
 end AferoVerif
